@@ -119,3 +119,12 @@ package mustache
 //@   ensures[C18] old(c.defaultVariables) != nil ==> c.defaultVariables == old(c.defaultVariables) &&
 //@       (forall k string :: old(haskey(c.defaultVariables, k)) ==> haskey(c.defaultVariables, k) && mapval(c.defaultVariables, k) == old(mapval(c.defaultVariables, k)))
 //@   nopanic
+
+// "clearing ... resets": no token of the template is left and the default map is a new, empty one
+//@ func (c *MustacheTemplate) Clear
+//@   tags C05, C03
+//@   requires c != nil && c.parser != nil
+//@   ensures[C05] len(c.parser.originalTokens) == 0 && len(c.parser.initialTokens) == 0 && len(c.parser.resultTokens) == 0 && len(c.parser.variableNames) == 0 &&
+//@       c.parser.template == "" && c.defaultVariables != nil && fresh(c.defaultVariables) && (forall k string :: !haskey(c.defaultVariables, k))
+//@   assigns c.parser.template, c.parser.originalTokens, c.parser.initialTokens, c.parser.resultTokens, c.parser.currentTokenIndex, c.parser.variableNames, c.defaultVariables
+//@   nopanic
